@@ -207,6 +207,58 @@ def replay(fl, path):
     return r.returncode, r.stdout.decode('latin-1'), r.stderr.decode('latin-1')
 
 
+def determinism_probe(fl, prop, seed, cases, outdir, thorough):
+    """the same cases executed by 16 and by 3 worker processes must give identical per-case history hashes"""
+    import tempfile
+    res = []
+    with tempfile.TemporaryDirectory(prefix='ctpg_det_', dir='/tmp') as tmp:
+        for nw in (min(16, NPROC), 3):
+            procs = []
+            for k in range(nw):
+                hf = os.path.join(tmp, 'h_%d_%d' % (nw, k))
+                cmd = [worker_bin(fl), '--batch', prop, '--seed', str(seed), '--from', '0', '--to', str(cases), '--stride', str(nw), '--offset', str(k),
+                       '--out', os.path.join(tmp, 'out'), '--hashes', hf]
+                if thorough:
+                    cmd.append('--thorough')
+                procs.append((subprocess.Popen(cmd, stdout=subprocess.DEVNULL, stderr=subprocess.DEVNULL, cwd=ROOT), hf))
+            h = {}
+            for pr, hf in procs:
+                pr.wait()
+                if os.path.exists(hf):
+                    for line in open(hf):
+                        i, v = line.split()
+                        h[int(i)] = v
+            res.append(h)
+    bad = [i for i in range(cases) if res[0].get(i) is None or res[0].get(i) != res[1].get(i)]
+    return {'flavour': fl, 'cases': cases, 'worker_counts': [min(16, NPROC), 3], 'mismatching_cases': len(bad), 'first_bad': bad[:5]}
+
+
+def valgrind_pass(prop, seed, cases, outdir):
+    """memcheck over a few hundred seeded cases of the plain binary (thorough tier)"""
+    cmd = ['valgrind', '-q', '--error-exitcode=99', '--errors-for-leak-kinds=none', '--leak-check=no', worker_bin('plain'), '--batch', prop, '--seed', str(seed),
+           '--from', '0', '--to', str(cases), '--out', outdir]
+    t0 = time.time()
+    r = subprocess.run(cmd, stdout=subprocess.PIPE, stderr=subprocess.PIPE, cwd=ROOT)
+    err = r.stderr.decode('latin-1')
+    return {'cases': cases, 'exit': r.returncode, 'errors_reported': err.count('== Invalid') + err.count('uninitialised'), 'wall_s': round(time.time() - t0, 1),
+            'stderr_tail': err[-1500:] if r.returncode == 99 else ''}
+
+
+def load_audit(prop):
+    """summary of the last committed sensitivity audit (tools/selftest_mutants.py), NOT produced by this run"""
+    p = os.path.join(ROOT, 'audit', 'selftest_mutants.json')
+    if not os.path.exists(p):
+        return None
+    try:
+        doc = json.load(open(p))
+    except Exception:
+        return None
+    mine = [e for e in doc.get('results', []) if prop in e.get('verdicts', {})]
+    return {'source': 'audit/selftest_mutants.json (committed; produced by tools/selftest_mutants.py, not by this run)', 'audited_at_repo_commit': doc.get('repo_commit'),
+            'changes_checked_against_this_property': len(mine),
+            'caught': sum(1 for e in mine if e['verdicts'][prop]['rc'] == 1), 'negative_controls_clean': sum(1 for e in mine if e.get('expect') == 'clean' and e['verdicts'][prop]['rc'] == 0)}
+
+
 def load_known():
     p = os.path.join(ROOT, 'known_findings.json')
     if not os.path.exists(p):
@@ -372,6 +424,24 @@ def main():
     for l in out_lines:
         log(l)
 
+    # determinism probe: part of every run (DESIGN 9.2); a mismatch is a harness failure, never a property verdict
+    det = determinism_probe('plain' if 'plain' in budgets else list(budgets.keys())[0], prop, seed, 300 if tier == 'quick' else 3000, outdir, tier == 'thorough') \
+        if not crashes else {'skipped': 'worker crashes in this run'}
+    if det.get('mismatching_cases'):
+        log('NON-DETERMINISTIC: %d of %d cases gave different history hashes at different worker counts: %s' % (det['mismatching_cases'], det['cases'], det['first_bad']))
+        rc = max(rc, 2)
+    vg = None
+    if tier == 'thorough' and prop == 'C06' and 'plain' in budgets and not crashes:
+        vg = valgrind_pass(prop, seed, 400, outdir)
+        if vg['exit'] == 99:
+            path = os.path.join(outdir, 'valgrind_%s_%d.txt' % (prop, seed))
+            with open(path, 'w') as f:
+                f.write(vg['stderr_tail'])
+            log('VIOLATION property=%s replay=%s' % (prop, path))
+            log('  class=valgrind_memcheck ' + vg['stderr_tail'][-400:].replace('\n', ' | '))
+            reported += 1
+            rc = max(rc, 1)
+
     wall = time.time() - t_start
     fault_fired = {k[len('fault_fired.'):]: v for k, v in counters.items() if k.startswith('fault_fired.')}
     probes = {k[len('probe.'):]: v for k, v in counters.items() if k.startswith('probe.')}
@@ -400,6 +470,9 @@ def main():
             'components_real': REAL_COMPONENTS, 'components_stub': STUB_COMPONENTS,
             'known_findings_seen': known_hits,
             'worker_crashes': len(crashes),
+            'determinism_probe': det,
+            'valgrind_pass': vg,
+            'sensitivity_audit': load_audit(prop),
         },
         'assumptions': [
             'the fleet grammars (fleet/specs.py) stand for "all grammars"; the program axis is fixed, not sampled per run',
